@@ -527,20 +527,20 @@ theorem C16_set_cell {α} [Inhabited α] (a a' : NDArr α) (axes : List (List Ra
 /-! ## the trailing-point rule under binary64 rounding -/
 
 /-- `create_range_dim`'s rule is `dropTrailingAt` at the exact threshold -/
-theorem dropTrailing_eq_at (stop step : Rat) (cs : List Rat) :
+theorem C16_rule_at (stop step : Rat) (cs : List Rat) :
     dropTrailing stop step cs = dropTrailingAt (stop - step / 2) cs := rfl
 
-/-- why the rule makes the count exact for decimal steps: let `stop - start = n * step`, and let
+/-- why the rule makes the count exact for decimal steps: for a request of `n` whole steps let
     `np.arange` have returned `n` or `n + 1` points (its internal ceiling may have been pushed either
     way by rounding), each — like the computed threshold — less than a quarter step off its exact
     value.  Then the rule leaves exactly the first `n` points.  The hypothesis is the executable
     `arangeContract`, evaluated at run time on what numpy returned. -/
-theorem C16_count_robust (start stop step δ thr : Rat) (n : Nat) (cs : List Rat)
-    (hc : arangeContract start stop step δ thr n cs = true) :
+theorem C16_count_robust (start step δ thr : Rat) (n : Nat) (cs : List Rat)
+    (hc : arangeContract start step δ thr n cs = true) :
     dropTrailingAt thr cs = cs.take n ∧ (dropTrailingAt thr cs).length = n := by
   simp only [arangeContract, Bool.and_eq_true, decide_eq_true_eq, Bool.or_eq_true, beq_iff_eq,
     List.all_eq_true, List.mem_range] at hc
-  obtain ⟨⟨⟨⟨⟨hs, hδ⟩, hw⟩, hlen⟩, hpts⟩, hthr⟩ := hc
+  obtain ⟨⟨⟨⟨hs, hδ⟩, hlen⟩, hpts⟩, hthr⟩ := hc
   have habs : ∀ x : Rat, absR x ≤ δ → -δ ≤ x ∧ x ≤ δ := by
     intro x hx; simp only [absR] at hx; split at hx <;> constructor <;> grind
   have hthr' := habs _ hthr
@@ -613,10 +613,10 @@ example : setKernel [(0, 1), (0, 2)] [(1, 3/2), (0, 0)]
 example : setKernel [(0, 1), (0, 2)] [(1, 5/2)] = .error .key := by decide +kernel
 example : [[0, 1], [0, 1, 2]].map axisRange = [(0, 1), ((0 : Rat), (2 : Rat))].map some := by decide +kernel
 -- `C16_count_robust`: arange pushed one point too far (n = 3, four points, the last a hair below stop) …
-example : arangeContract 0 (3/10) (1/10) (1/1000) (1/4) 3 [0, 1/10, 1/5, 2999/10000] = true := by decide +kernel
+example : arangeContract 0 (1/10) (1/1000) (1/4) 3 [0, 1/10, 1/5, 2999/10000] = true := by decide +kernel
 example : dropTrailingAt (1/4) [0, 1/10, 1/5, 2999/10000] = [0, 1/10, 1/5] := by decide +kernel
 -- … and not pushed (three points)
-example : arangeContract 0 (3/10) (1/10) (1/1000) (1/4) 3 [0, 1/10, 2001/10000] = true := by decide +kernel
+example : arangeContract 0 (1/10) (1/1000) (1/4) 3 [0, 1/10, 2001/10000] = true := by decide +kernel
 example : dropTrailingAt (1/4) [0, 1/10, 2001/10000] = [0, 1/10, 2001/10000] := by decide +kernel
 
 end SE.Proofs.C16
